@@ -871,6 +871,27 @@ def wCtor : List AModule :=
    ⟨['m','2'], .pub, [], [⟨['M','0'], false, []⟩], [⟨.ty, ['t','a'], 4, none⟩, ⟨.gi, ['t','a'], 5, none⟩],
     [⟨2, .pr, .early, ['t','a']⟩]⟩]
 
+/-- non-vacuity with use association: m1 of `wCtor` (own `type ta`, `use m0` where m0 hides its `ta`)
+    satisfies the hypotheses against m0's public tables; its own `ta` is exported, m0's is not -/
+example : (∀ n, tget (exportsA asBuilt [(['m','0'], exportsA asBuilt [] wCtor[0])] wCtor[1]).t n =
+      tget (specExportsA [(['m','0'], exportsA asBuilt [] wCtor[0])] wCtor[1]).t n) ∧
+    (exportsA asBuilt [(['m','0'], exportsA asBuilt [] wCtor[0])] wCtor[1]).t = [(['t','a'], 3)] ∧
+    (exportsA asBuilt [(['m','0'], exportsA asBuilt [] wCtor[0])] wCtor[1]).p = [] :=
+  ⟨fun n => (exports_are_accessible_frame _ wCtor[1] (by decide) (by decide) (by decide) (by decide) (by decide)
+      (by
+        intro u hu x hx k _
+        have hu' : u = ⟨['m','0'], false, []⟩ := by simpa [wCtor] using hu
+        subst hu'
+        have hx' : x = exportsA asBuilt [] wCtor[0] := by
+          have : findMod [(['m','0'], exportsA asBuilt [] wCtor[0])] (lower ['m','0']) =
+              some (exportsA asBuilt [] wCtor[0]) := by rfl
+          rw [this] at hx
+          exact (Option.some.inj hx).symm
+        subst hx'
+        have e : exportsA asBuilt [] wCtor[0] = ⟨[], [], []⟩ := by rfl
+        rw [e]
+        simp [importTable, tget]) n).2.2, by decide, by decide⟩
+
 /-- **constructor_sync_late_witness**: the order of the two steps is load-bearing.  If the
     constructor gets its type's accessibility only after the public tables were derived, the
     interface of the PRIVATE type is exported, becomes the "constructor" of the using modules' own
